@@ -126,7 +126,7 @@ P = {
  "C12": (["VerifProxyGetAC", "VerifProxyGetCasRaw", "VerifProxyGetCasZstd", "VerifPutRawProxy"], ["VerifProxyGetCasZstdZ", "VerifPutCasZstdProxy", "VerifPutCasRawProxy"], [FSM, CODEC, HASH, "the backend is an arbitrary cache.Proxy stub"], ["minio/azure/gcs SDK calls", "real HTTP body semantics"]),
  "C13": (["VerifGrpcBasicAuth", "VerifGrpcBasicAuthAccepts", "VerifGrpcMTLS", "VerifHTTPAuthWiring"], [], ["auth.CheckSecret is an arbitrary predicate", "strings are ASCII"], ["htpasswd hash checking, TLS handshake and certificate verification, LDAP", "whether grpc-go calls the interceptors for every method"]),
  "C14": (["VerifReadArbitrary2", "VerifGetCasZstd", "VerifGetSpecial"], ["VerifReadArbitrary3", "VerifGetCasZstdAsZstd", "VerifGetCasRawAsZstd", "VerifProxyGetCasZstd"], [FSM, CODEC], ["panics inside stubbed libraries", "resource exhaustion by volume"]),
- "C15": (["VerifParseRequestURL", "VerifParseRequestURLAccepts", "VerifGrpcACKeyMangling", "VerifHTTPGrpcSameKey", "VerifLookupKey", "VerifGetSpecial"], [], ["sha256 is injective on byte strings (digest texts are fresh 64-hex strings with pairwise (content equal <=> digest equal))", "strings are ASCII", "disk.Cache replaced by a recording stub"], ["sha256 itself", "non-ASCII instance names", "isolation after eviction (C03/C04)"]),
+ "C15": (["VerifGrpcACKeyMangling", "VerifLookupKey", "VerifGetSpecial"], [], ["sha256 is injective on byte strings (digest texts are fresh 64-hex strings with pairwise (content equal <=> digest equal))", "strings are ASCII", "disk.Cache replaced by a recording stub"], ["sha256 itself", "non-ASCII instance names", "isolation after eviction (C03/C04)", "the HTTP path-prefix clause: harnesses VerifParseRequestURL / VerifHTTPGrpcSameKey exist but no solver decides 'every URL /I/ac/h matches ^/?(.*/)?(ac/|cas/)([a-f0-9]{64})$ with instance I' within budget (cvc5 and z3 time out at 60 s even with |I| <= 6), so the URL grammar is not claimed"]),
  "C16": (["VerifBytestreamWrite2", "VerifQueryWriteStatus"], ["VerifBytestreamWrite3"], ["disk.Cache replaced by a contract stub (Put consumes the reader and accepts exactly the declared bytes)"], ["grpc-go's own stream behaviour", "more than 3 messages", "more than 2 preemptive context switches"]),
  "C17": (["VerifLRUReserve3", "VerifLRURemove", "VerifLRUAdd3", "VerifPutAC", "VerifProxyGetAC"], ["VerifLRUReserve4", "VerifPutCasZstd", "VerifPutCasRaw", "VerifProxyGetCasRaw"], [FSM], ["real unlink latency"]),
  "C18": (["VerifPutAC", "VerifPutCasRaw", "VerifContains", "VerifProxyGetAC"], ["VerifPutCasZstd", "VerifProxyGetCasRaw", "VerifProxyGetCasZstd"], [FSM, HASH], ["transport-level message size limits"]),
